@@ -269,6 +269,10 @@ fn random_session_message(rng: &mut crate::util::Rng) -> SessMsg {
 
 fn session(rng: &mut crate::util::Rng, rep: &mut Report) {
     let n = 3 + rng.usize(4);
+    session_of_length(rng, rep, n)
+}
+
+fn session_of_length(rng: &mut crate::util::Rng, rep: &mut Report, n: usize) {
     let msgs: Vec<SessMsg> = (0..n).map(|_| random_session_message(rng)).collect();
     let shown = msgs.iter().map(|m| format!("{}{}", m.m.show(), m.reply.as_ref().map(|r| format!("<-{}", r.show())).unwrap_or_default())).collect::<Vec<_>>().join(" ");
     rep.case(Some(fnv(shown.as_bytes())));
@@ -458,6 +462,11 @@ pub fn run(ctx: &Ctx) -> Outcome {
     let shards = 8usize;
     let rep3 = run_sharded_on(shards, shards, |i, rep| {
         let mut rng = ctx.rng("sessions", i as u64);
+        if i < 2 {
+            // one bus instance through 300 messages: the 300th chunk is paced like the first
+            session_of_length(&mut rng, rep, 300);
+            rep.count("long_sessions");
+        }
         for _ in 0..n_sessions / shards {
             session(&mut rng, rep);
         }
@@ -481,6 +490,7 @@ pub fn run(ctx: &Ctx) -> Outcome {
         floor("data chunk followed by a failing flush (3 error kinds)", report.get("flush_fault_trials") >= 9, report.get("flush_fault_trials")),
         floor("sessions: paced chunks, paced replies and unpaced pairs all observed mid-session", report.get("session_paced_chunks") >= 50 && report.get("session_paced_replies") >= 20 && report.get("session_pairs_judged") >= 10, format!("{} chunks, {} replies, {} pairs", report.get("session_paced_chunks"), report.get("session_paced_replies"), report.get("session_pairs_judged"))),
         floor("paced exchanges on ports whose write / read blocks for 10, 20, 45 and 120 ms", report.get("stalled_port_trials") >= 8, report.get("stalled_port_trials")),
+        floor("two sessions of 300 messages through one bus", report.get("long_sessions") == 2, report.get("long_sessions")),
         floor("every unpaced cell measured", report.get("unpaced_send_cells") == n_send_unpaced, report.get("unpaced_send_cells")),
         floor("no measurement errors", !report.notes.keys().any(|k| k.starts_with("measure_error/")), "see notes"),
     ];
